@@ -1,4 +1,5 @@
 import Rangers.Proofs.JournalSteps3
+import Rangers.Proofs.JournalRoot
 /-!
 # Property C04 — reverting to a snapshot restores the account state exactly
 
@@ -296,6 +297,26 @@ theorem suicide_undo_rewrites_slot_counterexample :
     (obs c0 r c0.tok (c0.balKey A1) [] []).slot = [5] ∧
     (obs c0 sPadded c0.tok (c0.balKey A1) [] []).slot = toHash [5] ∧
     (obs c0 r A1 [] [] []).balance = (obs c0 sPadded A1 [] [] []).balance := by
+  decide
+
+/-- **C04, root clause (proved part).** A reverted region made only of ops that do not touch account
+objects — AddRefund, SubRefund, AddLog, AddAddressToAccessList, AddSlotToAccessList, SetTransientState,
+nested snapshots and reverts (6 of the 11 journal entry kinds) — leaves everything `Finalise` reads
+untouched, so `IntermediateRoot(d)` hashes exactly the content it would have hashed without the region.
+This hypothesis excludes all four root mechanisms of the counterexamples above, which need a region
+that writes to (or reads through) an account object. -/
+theorem revert_restores_root_partial (c : Cfg) (s : ADB) (region : List Op) (d : Bool)
+    (hs : s.crashed = false) (hr : s.revisions = []) (hops : ∀ op ∈ region, opGlobal op = true)
+    (hnc : (revert c (run c (snapshot s).1 region) (snapshot s).2).crashed = false) :
+    (finalise d (revert c (run c (snapshot s).1 region) (snapshot s).2)).trie = (finalise d s).trie :=
+  finalise_trie_congr d _ _ hnc hs (revert_objview_global c s region hs hr hops)
+
+/-- non-vacuity: such a region on a state with pending (dirty) account changes -/
+example : let s := setData (setNonce ADB.empty A1 1) A1 [0x6b] [7]
+    let region : List Op := [.addRefund 5, .snapshot, .tset A1 (toHash [1]) (toHash [2]), .alSlot A1 (toHash [1]),
+      .addLog A1 [] [1], .revert 1, .alAddr [0xa2], .subRefund 2]
+    (∀ op ∈ region, opGlobal op = true) ∧ s.revisions = [] ∧
+    (revert c0 (run c0 (snapshot s).1 region) (snapshot s).2).crashed = false ∧ (finalise true s).trie ≠ [] := by
   decide
 
 /-- the side condition of `Suicide` in `StepOk` is exactly what fails in that history -/
